@@ -360,8 +360,10 @@ func (cr *concRun) checkConcIter() {
 				}
 				if ok && cfg.withExpiry() {
 					// any write of the key that overlaps or follows W may be the one whose value is
-					// current; it computed its deadline from a clock sample as old as its invocation
-					for _, A := range mayInstall[k] {
+					// current, and under expire-after-access any read may be the one that set the
+					// deadline last; each computed it from a clock sample as old as its invocation
+					// (a delayed reader can move a deadline backwards - section 11)
+					for _, A := range mayTouch[k] {
 						if A.ret >= W.call && A.call <= I.Ret && satAdd(A.nowCall, cfg.ExpD) <= I.NowRet {
 							ok = false
 							break
